@@ -1,12 +1,10 @@
 //! vp: compiler / package-manager properties (everything except the text-only and LSP ones).
-mod exec;
-mod fastc;
 mod pkgprops;
 mod progprops;
 mod smoke;
-mod swaygen;
 
 use vcommon::*;
+use vcore::{exec, fastc, swaygen};
 
 fn main() {
     install_panic_hook();
